@@ -3,6 +3,7 @@ pub mod crash;
 pub mod engine;
 pub mod fault;
 pub mod gen;
+pub mod huge;
 pub mod model;
 pub mod monitors;
 pub mod ops;
